@@ -36,7 +36,10 @@ NPROC = os.cpu_count() or 4
 
 ALLOWED_AXIOMS = {'propext', 'Classical.choice', 'Quot.sound'}
 FORBIDDEN = re.compile(r'\bsorry\b|\badmit\b|^\s*axiom\s|native_decide|bv_decide|implemented_by|'
-                       r'\bunsafe\s|maxHeartbeats\s+0\b|@\[extern', re.M)
+                       r'\bunsafe\s|maxHeartbeats\s+0\b|@\[extern|^\s*opaque\s|@\[csimp|'
+                       r'^\s*(?:private\s+)?partial\s+def\s', re.M)
+# the one sanctioned `partial def`: the stdin line loop shared by the drivers (IO, never used in a theorem)
+FORBIDDEN_ALLOW = {('lean/Alpaqa/Model/Proto.lean', 'partial def')}
 
 CXX = os.environ.get('CXX', 'g++')
 BASE_FLAGS = ['-std=c++20', '-O1', '-DNDEBUG', '-ffp-contract=off', '-DEIGEN_DONT_VECTORIZE',
@@ -179,8 +182,21 @@ def forbidden_hits(files):
         txt2 = re.sub(r'/-.*?-/', lambda m: re.sub(r'[^\n]', ' ', m.group(0)), txt, flags=re.S)
         txt2 = re.sub(r'--[^\n]*', '', txt2)
         for m in FORBIDDEN.finditer(txt2):
-            hits.append(f'{os.path.relpath(f, VERIF)}: {m.group(0).strip()}')
+            rel, tok = os.path.relpath(f, VERIF), ' '.join(m.group(0).split())
+            if (rel, tok) in FORBIDDEN_ALLOW:
+                continue
+            hits.append(f'{rel}: {tok}')
     return hits
+
+
+def whole_tree_sources():
+    """Every Lean source of the library and the drivers (the forbidden-token scan covers all of them on every
+    run, not only the modules a check lists)."""
+    out = []
+    for root in (os.path.join(LEAN, 'Alpaqa'), os.path.join(LEAN, 'Driver')):
+        for d, _, fs in os.walk(root):
+            out += [os.path.join(d, f) for f in fs if f.endswith('.lean')]
+    return sorted(out)
 
 
 def audit_axioms(module, names, ns):
@@ -347,6 +363,11 @@ class Report:
         self.assumptions = []
         self.notes = []
         self.known = load_known(pid)
+        # a run that dies half-way must not leave an older, passing evidence file behind
+        try:
+            os.remove(os.path.join(EVID, f'{pid}.json'))
+        except OSError:
+            pass
 
     def note(self, s):
         self.notes.append(s)
@@ -487,6 +508,7 @@ def _proof_stage(rep, pid, gen_scripts, modules, driver, extra_sources, extra_ta
                 broken.append(f'leanchecker rejects {mod}: {r.stdout[-400:]}')
         rep.cov['leanchecker'] = checked
     files += [os.path.join(LEAN, p) for p in extra_sources]
+    files = sorted(set(files) | set(whole_tree_sources()))
     hits = forbidden_hits(files)
     for h in hits:
         broken.append('forbidden token: ' + h)
